@@ -84,6 +84,9 @@ type CrashDB struct {
 	pend [][]kv
 	// Writes counts write groups (for statistics).
 	Writes int
+	// Trace, if set, is told every key a write group is about to set or delete (before the
+	// group takes effect, outside the DB lock; it may read the DB).
+	Trace func(key string, del bool)
 }
 
 var _ dbm.DB = (*CrashDB)(nil)
@@ -171,6 +174,11 @@ func (d *CrashDB) apply(label string, g []kv, sync bool) error {
 	d.ctl.Point("db:" + d.Name + ":" + label + ":pre")
 	if d.ctl.Dead() {
 		return nil
+	}
+	if d.Trace != nil {
+		for _, e := range g {
+			d.Trace(e.k, e.del)
+		}
 	}
 	d.mu.Lock()
 	for _, e := range g {
